@@ -66,12 +66,17 @@ func c05Corpus(quick bool) []c05Script {
 		c05Script{mode: "emacs", keys: []string{"f", "o", "\t", "a", "b", "c", "\r"}, comp: true},
 		c05Script{mode: "emacs", keys: []string{"a", "\x1b[D", "\x1b[D", "b", "\x1b[C", "c", "\r"}},
 		c05Script{mode: "emacs", keys: []string{"x", "y", "\x12", "o", "\x07", "z", "\r"}},
+		// multi-byte argument keys (character-search, quoted-insert), an interrupt followed by more keys
+		c05Script{mode: "emacs", keys: []string{"a", "é", "b", "\x01", "\x1d", "é", "X", "\r"}},
+		c05Script{mode: "emacs", keys: []string{"\x16", "中", "a", "\r"}},
+		c05Script{mode: "emacs", keys: []string{"a", "b", "\x03", "c", "d", "\r"}},
 	)
 	vi := [][]string{
 		{"i", "a", "\x1b", "\r"}, {"a", "b", "\x1b", "h", "x", "\r"}, {"a", "b", "a", "\x1b", "0", "f", "a", "x", "\r"},
 		{"a", "b", "\x1b", "r", "z", "\r"}, {"a", " ", "b", "\x1b", "0", "d", "w", "\r"}, {"a", "b", "c", "\x1b", "0", "2", "l", "x", "\r"},
 		{"a", " ", "b", "\x1b", "0", "\"", "a", "y", "w", "P", "\r"}, {"a", "\x1b", "q", "a", "x", "q", "u", "@", "a", "\r"},
 		{"a", "b", "\x1b", "v", "h", "d", "\r"}, {"é", "中", "\x1b", "h", "x", "\r"}, {"a", "b", "\x1b", "c", "w", "z", "\x1b", "\r"},
+		{"a", "é", "b", "\x1b", "0", "f", "é", "x", "\r"}, {"a", "b", "\x1b", "r", "中", "\r"}, {"a", "\x03", "b", "\r"},
 	}
 	for _, k := range vi {
 		out = append(out, c05Script{mode: "vi", keys: k})
